@@ -79,6 +79,7 @@ type State struct {
 	heap   map[string]Term // component -> array term
 	alloc  Term            // allocation counter (objects with 0 < ref <= alloc exist)
 	defers []deferred
+	panicking bool // this path is unwinding after a panic of a `maypanic` callee (until recover() is called)
 	locks  map[string]int // held locks (by key) — lock discipline tracking
 	ghost  map[string]Term
 	oldMode int
@@ -99,7 +100,7 @@ type epochBranch struct {
 }
 
 func (s *State) clone() *State {
-	n := &State{pc: s.pc, alloc: s.alloc, oldMode: s.oldMode, epoch: s.epoch, oldView: s.oldView, etree: s.etree}
+	n := &State{pc: s.pc, alloc: s.alloc, oldMode: s.oldMode, epoch: s.epoch, oldView: s.oldView, etree: s.etree, panicking: s.panicking}
 	n.cells = make(map[*Cell]Value, len(s.cells))
 	for k, v := range s.cells {
 		n.cells[k] = v
